@@ -445,7 +445,7 @@ End Run.
    alg   ::= (0) | (1 (draw ...)) | (2 alg hashmod auto maxdup maxatt) | (3 alg (size?) upd ((child ...) ...))
    upd   ::= (0) | (1 n) | (2 n) | (3) | (4 ((pid ...) ...)) | (5 a b)
    out   ::= (snapshot ...)            one per crash point (before each event, and after the last)
-   snapshot ::= (live recovered live_continuation recovered_continuation (recovered_with_undelivered_reward?))
+   snapshot ::= (live recovered live_continuation recovered_continuation (recovered_with_undelivered_reward?) (recovered_from_proposal_time_metadata?))
    obs   ::= (np nf (dna ...) ((key ((reward?) ...)) ...) (extra ...) (obs ...))
    dna   ::= (val (pid?) (gid?) (ini?) (fsn?) (fit?) (key?) skipped) *)
 Local Open Scope Z_scope.
@@ -503,17 +503,36 @@ Section Sim.
         end
     | _ => []
     end.
-  Definition snapshot (r : run_st g) (next : option Z) : tr :=
+  (* the history as a backend keeps it that stores the DNA when it is proposed and the reward when it arrives:
+     metadata as of proposal time (no feedback sequence number, no fitness) *)
+  Definition hist0_step (h0 : list hentry) (r : run_st g) (e : Z) (r' : run_st g) : list hentry :=
+    if (e =? 0)%Z then
+      match nth_error (r_hist g r') (length (r_hist g r)) with
+      | Some x => if r_ok g r' then h0 ++ [x] else h0
+      | None => h0
+      end
+    else if (e =? 1)%Z then
+      match nth_error (r_hist g r) (r_ptr g r), nth_error h0 (r_ptr g r) with
+      | Some (d, _), Some (d0, _) => set_nth (r_ptr g r) (d0, Some (reward_for reward_of d)) h0
+      | _, _ => h0
+      end
+    else h0.
+  Definition proposal_time (r : run_st g) (h0 : list hentry) : list tr :=
+    if existsb (fun e => match snd e with Some _ => true | None => false end) h0
+    then [e_obs (obs g (recovered g h0))] else [].
+
+  Definition snapshot (r : run_st g) (h0 : list hentry) (next : option Z) : tr :=
     let rec := recovered g (r_hist g r) in
     L [e_obs (obs g (r_st g r)); e_obs (obs g rec);
        elist eZ (if det then continue_from g 5 (r_st g r) else []);
        elist eZ (if det then continue_from g 5 rec else []);
-       L (undelivered r next)].
-  Fixpoint sim (evs : list Z) (r : run_st g) : list tr :=
-    snapshot r (hd_error evs) ::
+       L (undelivered r next);
+       L (proposal_time r h0)].
+  Fixpoint sim (evs : list Z) (r : run_st g) (h0 : list hentry) : list tr :=
+    snapshot r h0 (hd_error evs) ::
     match evs with
     | [] => []
-    | e :: rest => let r' := step g reward_of r e in if r_ok g r' then sim rest r' else []
+    | e :: rest => let r' := step g reward_of r e in if r_ok g r' then sim rest r' (hist0_step h0 r e r') else []
     end.
 End Sim.
 
@@ -523,7 +542,7 @@ Definition run (c : tr) : tr :=
       match d_alg 20 a, dZ m, dlist dZ rewards, dlist dZ evs with
       | Some a', Some m', Some rw, Some es =>
           let g := denote m' a' in
-          L (sim g (fun v => nth (Z.to_nat v) rw 0) (deterministic a') es (run_init g))
+          L (sim g (fun v => nth (Z.to_nat v) rw 0) (deterministic a') es (run_init g) [])
       | _, _, _, _ => ebad
       end
   | _ => ebad
